@@ -35,6 +35,8 @@ for tier in ("quick", "thorough"):
                 nloops = len(re.findall(r"loop[12]/", cid)) + (1 if cid.endswith(">retloop") or ">retloop#" in cid else 0)
                 if len(ws) == 2 and len(gs) == 2 and ws[0] == gs[0] and names(ws[1]) == names(gs[1]) and nloops >= 2:
                     sets["looporder"].add(key)      # same deferred calls, wrong order, two loop-defer groups in the function
+                elif len(ws) == 2 and len(gs) == 2 and names(ws[1]) == names(gs[1]) and nloops >= 2 and "repanic" in cid and (("recover" in cid) or (ws[0].startswith("panic:") and gs[0].startswith("panic:"))):
+                    sets["looporder"].add(key)      # the same, and the wrong order also decides which re-panic is the last one / which recover sees it
                 elif len(ws) == 2 and len(gs) == 2 and norm(ws[1]) == norm(gs[1]) and re.match(r"ret:", ws[0]) and re.match(r"ret:", gs[0]) and "repanic" in cid and "recover" in cid:
                     sets["repanic_result"].add(key)  # same trace, the named result assigned before the recovered re-panic is lost
                 else:
